@@ -776,6 +776,7 @@ func (ex *Exec) contractCall(key string, spec *FuncSpec, callee *ssa.Function, t
 	}
 	// lock protocol of the callee
 	ex.lockCallProtocol(spec, ev, pos, callee.Name())
+	ex.concCalleeFootprint(spec, callee, ev, pos)
 	// havoc modifies
 	post := pre.clone()
 	ex.curState = post
